@@ -30,6 +30,50 @@ def last(p):
     return (p or "").split("::")[-1]
 
 
+def _decoded_option(body, op, depth=0):
+    """the operand is `opt.unwrap()` (or the payload of a match on it) of a local Option whose every definition is None or
+    Some(<result of a read_box call>)"""
+    pl = op_place(op)
+    for _ in range(8):
+        if pl is None:
+            return False
+        l = pl["l"]
+        ds = body.defs().get(l, [])
+        if len(ds) == 1 and ds[0][2] == "call":
+            t = ds[0][3]
+            tail = (t["callee"].get("path") or "").split("::")[-1]
+            if tail in ("unwrap", "expect", "unwrap_or_default", "ok_or", "ok_or_else", "branch", "take", "clone") and t["args"]:
+                pl = op_place(t["args"][0])
+                continue
+            return False
+        if len(ds) == 1 and ds[0][2] == "assign" and ds[0][3]["k"] in ("use", "cast"):
+            pl = op_place(ds[0][3]["a"])
+            continue
+        if len(ds) == 1 and ds[0][2] == "assign" and ds[0][3]["k"] == "ref":
+            pl = ds[0][3]["place"]
+            continue
+        if len(ds) >= 2 and "Option<" in body.locals[l]["ty"]:
+            some = 0
+            for b_, i_, kind, payload in ds:
+                for _h in range(3):
+                    if kind == "assign" and payload["k"] in ("use", "cast"):
+                        src = op_place(payload["a"])
+                        sd_ = body.single_def(src["l"]) if src is not None and not src["p"] else None
+                        if sd_ is not None and sd_[2] == "assign":
+                            kind, payload = "assign", sd_[3]
+                            continue
+                    break
+                if kind == "assign" and payload["k"] == "agg" and payload.get("variant") == "None":
+                    continue
+                if kind == "assign" and payload["k"] == "agg" and payload.get("variant") == "Some" and "read_box" in body.canon_op(payload["ops"][0]):
+                    some += 1
+                    continue
+                return False
+            return some >= 1
+        return False
+    return False
+
+
 def run(fx, chk, tier):
     chk.rule("R1", "decoder, encoder and accessor item tables agree, cover the four keys and use the iTunes item codes; the wildcard arm only skips")
     chk.rule("R2", "metadata() = moov.udta.meta(mdir).ilst, empty on every absence path")
@@ -292,6 +336,40 @@ def run(fx, chk, tier):
     MD = ("DataBox", "IlstItemBox", "IlstBox", "MetaBox")
     compose(fx, chk, tier, "R7", "C04", ["S3", "S4", "S5", "S6"], keyfilter=lambda o: any(x in o["key"] for x in MD), floor=12, what="layout obligations of the payload decoders")
     compose(fx, chk, tier, "R7", "C10", ["R2"], keyfilter=lambda o: o["ok"] or any(x in o["key"] for x in MD + ("data::", "ilst::", "meta::")), floor=15, what="whole-transfer obligations of the payload decoders")
+    # ---------------- R8: every reader value carries the movie's metadata
+    import re as _re
+    chk.rule("R8", "every construction of an Mp4Reader gives it the movie box the accessors read: the decoded moov, or the opening reader's moov as a whole (a rebuilt MoovBox must take udta and meta from it): a reader opened for a fragment reports the tags of its initialization segment")
+    nctor = 0
+    for fid, fn in sorted(fx.fns.items()):
+        b = body_of(fn)
+        if b is None or fn.get("derived"):
+            continue
+        for bb in b.reach:
+            for s_ in b.stmts(bb):
+                if s_["k"] != "assign" or s_["rv"]["k"] != "agg" or s_["rv"].get("ak") != "adt" or not str(s_["rv"].get("adt", "")).endswith("reader::Mp4Reader"):
+                    continue
+                nctor += 1
+                flds = dict(zip(s_["rv"]["fields"], s_["rv"]["ops"]))
+                mo = flds.get("moov")
+                c = b.canon_op(mo) if mo is not None else ""
+                key = "%s|moov" % fid.split("::")[-1]
+                ok, how = False, "moov = %s" % c[:80]
+                if _re.match(r"^\$\d+\.moov$", c):
+                    ok, how = True, "the opening reader's movie box as a whole"
+                elif "read_box" in c:
+                    ok, how = True, "the decoded movie box"
+                elif _decoded_option(b, mo):
+                    ok, how = True, "the decoded movie box (taken out of the Option the walk filled)"
+                else:
+                    pl = op_place(mo) if mo is not None else None
+                    sd = b.single_def(pl["l"]) if pl is not None and not pl["p"] else None
+                    if sd and sd[2] == "assign" and sd[3]["k"] == "agg" and str(sd[3].get("adt", "")).endswith("MoovBox"):
+                        sub = dict(zip(sd[3]["fields"], sd[3]["ops"]))
+                        miss = [f for f in ("udta", "meta") if not _re.match(r"^\$\d+\.moov\.%s$" % f, b.canon_op(sub[f]) if f in sub else "")]
+                        ok = not miss
+                        how = "rebuilt MoovBox with udta and meta taken from the opening reader" if ok else "a rebuilt MoovBox whose %s %s not the opening reader's" % (" and ".join(miss), "is" if len(miss) == 1 else "are")
+                chk.require(ok, "R8", key, how, "%s builds an Mp4Reader from %s: metadata() of that reader no longer reports the tags of the movie" % (fid.split("::")[-1], how), site_of(fn, s_.get("line")))
+    chk.floor("R8", "constructions of Mp4Reader", nctor, 2)
     return chk.finish(
         "other",
         "Item-code, key and accessor tables are extracted from match arms and compared with each other and with the iTunes codes; the selection path of metadata(), the mdir constant pairing, "
